@@ -1067,6 +1067,16 @@ pub fn run(prop: &str, tier: Tier, seed: u64) -> i32 {
   let scfg = SearchCfg { prop, label: "case", seed, shards, cases_per_shard: cases, max_shrink_iters: 3000 };
   let (stats, found) = driver::search(&scfg, &known, || spec_strategy(spec, cfg.clone()), |c, s| check(spec, c, s), |c| pretty_case(c));
   report.absorb("case", stats, found);
+  // Thorough tier: a second search over larger programs and longer histories (fewer, bigger cases).
+  if tier == Tier::Thorough && report.violations.is_empty() {
+    let mut big = (spec.cfg)(tier);
+    big.max_tasks = 20; big.max_src = 5; big.max_gen = 7; big.max_stmts = 9; big.max_steps = 24;
+    let cases_big = if prop == "C16" { 4000 } else { 20000 };
+    let scfg = SearchCfg { prop, label: "large", seed, shards: 16, cases_per_shard: cases_big, max_shrink_iters: 3000 };
+    let (stats, found) = driver::search(&scfg, &known, || spec_strategy(spec, big.clone()), |c, s| check(spec, c, s), |c| pretty_case(c));
+    report.extra.insert("large_cases".into(), json!(stats.evaluations));
+    report.absorb("case", stats, found);
+  }
   if let Some(extra) = spec.extra { extra(spec, tier, seed, &known, &mut report); }
   // Coverage-guided campaign (thorough tier) for the properties whose cases are plain program x history values.
   if tier == Tier::Thorough && report.violations.is_empty() && std::env::var("PV_NO_FUZZ").is_err() {
